@@ -35,6 +35,11 @@ var Progress atomic.Uint64
 // then ends like one that ran out of steps: inconclusive, never a verdict.
 var WallExpired atomic.Bool
 
+// RunWallExtra lets a scenario that knows it is long (a history of a hundred
+// thousand connections) ask for more wall-clock time for the current run, in
+// seconds; the harness resets it before every run.
+var RunWallExtra atomic.Int64
+
 // Event is something the scheduler may choose to do next.
 type Event struct {
 	Key     string // total order among simultaneously enabled events
